@@ -587,6 +587,7 @@ func runC05(c *hc.Ctx) error {
 				}
 			}
 		}
+		_ = kind
 		for _, rev := range []bool{false, true} {
 			without, with := results[[2]bool{false, rev}], results[[2]bool{true, rev}]
 			if without.Panic != "" || with.Panic != "" {
@@ -606,6 +607,48 @@ func runC05(c *hc.Ctx) error {
 				if !ok {
 					c.Violate(hc.Violation{What: fmt.Sprintf("keep-points-and-lines changed the polygons of tile matrix %d instead of only appending one- or two-vertex parts", id), Input: caseJSON(g, poly, ids, cfg, with), Expected: a, Observed: b})
 				}
+			}
+		}
+	}
+	// large coordinates on a real grid (regression of F4: vertices hit twice were looked up through a float->int
+	// round trip that is off by more than one unit there): WebMercatorQuad tile matrix 14 around (600000, 6800000)
+	if wm, err := embeddedGrid("WebMercatorQuad", 14); err == nil {
+		for i := 0; i < c.N(120, 6000); i++ {
+			span := wm.Span(wm.Level(14))
+			bx := int64(6000000000000000) + c.Rng.Int63n(1000)*span
+			by := int64(68000000000000000) + c.Rng.Int63n(1000)*span
+			nv := 4 + c.Rng.Intn(8)
+			var ring []Pt
+			ok := true
+			for k := 0; k < nv; k++ {
+				var p Pt
+				if k >= 2 && c.Rng.Intn(4) == 0 {
+					p = ring[c.Rng.Intn(len(ring))] // revisit
+				} else {
+					x, ok1 := fixRoundTrip(bx + c.Rng.Int63n(6*span))
+					y, ok2 := fixRoundTrip(by + c.Rng.Int63n(6*span))
+					ok = ok && ok1 && ok2
+					p = Pt{x, y}
+				}
+				ring = append(ring, p)
+			}
+			poly := [][]Pt{ring}
+			if !ok || !wm.inGrid(poly) {
+				continue
+			}
+			for _, keep := range []bool{false, true} {
+				cfg := snap.Config{KeepPointsAndLines: keep, ReverseWindingOrder: c.Rng.Intn(2) == 0}
+				r := runSnap(wm, poly, []int{14}, cfg, watchdog)
+				c.Sum.Evaluations++
+				c.Count("WebMercatorQuad id 14, large coordinates")
+				if collapses(wm, poly, r) {
+					c.Nontrivial(keyOf(wm, poly, []int{14}, cfg))
+				}
+				if unexpectedPanic(c, wm, poly, []int{14}, cfg, r) {
+					continue
+				}
+				checkRingsWellFormed(c, wm, poly, []int{14}, cfg, r)
+				c.Case(snapCaseTerm(wm, poly, []int{14}, cfg, r), caseJSON(wm, poly, []int{14}, cfg, r))
 			}
 		}
 	}
